@@ -163,6 +163,11 @@ func runC05(tier string) int {
 		}
 	}
 	forEachEngineProgram(r, plans, swN, evalProgram)
+	mixed := mixedNestingPrograms(tier)
+	if !r.Parallel(uint64(len(mixed)), func(w int, i uint64) { evalProgram(w, mixed[i]) }) {
+		r.NotExhaustive("mixed nesting programs not completed")
+	}
+	r.Set("mixed_nesting_programs", len(mixed))
 	// Conditions whose operand tests share one var: different operators and constants (2, 3, 4), the same test written plainly
 	// and with value(), and constants whose decimal spellings are prefixes of one another (1, 10, 100) - in every condition position.
 	maxShared := 3
